@@ -467,10 +467,42 @@ func readerKey(u *url.URL) string {
 
 // LoadForest loads the forest through its entry point with an in-memory reader.
 func LoadForest(f *Forest, allowExternal bool, answer func(u *url.URL, found bool) int) LoadResult {
+	return LoadForestAfter(f, allowExternal, answer, 0)
+}
+
+// brokenRoot is the forest's root document with the planted reference's internal target components removed.
+func brokenRoot(f *Forest) any {
+	root := cloneJSON(f.Files[f.RootLoc])
+	if comps, ok := root.(map[string]any)["components"].(map[string]any); ok {
+		for _, sec := range comps {
+			if m, ok := sec.(map[string]any); ok {
+				for _, n := range []string{"Tgt", "Mid", "Second", "Direct"} {
+					delete(m, n)
+				}
+			}
+		}
+	}
+	return root
+}
+
+// LoadForestAfter loads the forest with a Loader that has a history:
+// 0 a fresh loader; 1 the loader first loaded (through the same entry point, from a sibling location) a broken
+// edition of the same document: internal targets removed, no other file readable, which fails wherever the planted
+// reference needs one of them; 2 the loader first loaded this very document from the same location.
+func LoadForestAfter(f *Forest, allowExternal bool, answer func(u *url.URL, found bool) int, history int) LoadResult {
 	var res LoadResult
 	l := openapi3.NewLoader()
 	l.IsExternalRefsAllowed = allowExternal
+	preloading := false
+	brokenLoc := ""
+	var brokenBytes []byte
 	l.ReadFromURIFunc = func(_ *openapi3.Loader, u *url.URL) ([]byte, error) {
+		if preloading && history == 1 {
+			if readerKey(u) == brokenLoc {
+				return brokenBytes, nil
+			}
+			return nil, fmt.Errorf("open %s: no such file", u)
+		}
 		res.Reads = append(res.Reads, u.String())
 		d, ok := f.Files[readerKey(u)]
 		mode := 0
@@ -488,21 +520,39 @@ func LoadForest(f *Forest, allowExternal bool, answer func(u *url.URL, found boo
 		}
 		return json.Marshal(d)
 	}
-	rootBytes, _ := json.Marshal(f.Files[f.RootLoc])
-	switch f.Entry {
-	case "Data":
-		res.Doc, res.Err = l.LoadFromData(rootBytes)
-	case "DataWithPath":
-		res.Doc, res.Err = l.LoadFromDataWithPath(rootBytes, &url.URL{Path: f.RootLoc})
-	case "File":
-		res.Doc, res.Err = l.LoadFromFile(f.RootLoc)
-	case "URI":
-		res.Doc, res.Err = l.LoadFromURI(&url.URL{Path: f.RootLoc})
-	case "HTTP":
-		u, _ := url.Parse(f.RootLoc)
-		res.Doc, res.Err = l.LoadFromURI(u)
-	default:
+	load := func(rootBytes []byte, loc string) (*openapi3.T, error) {
+		switch f.Entry {
+		case "Data":
+			return l.LoadFromData(rootBytes)
+		case "DataWithPath":
+			return l.LoadFromDataWithPath(rootBytes, &url.URL{Path: loc})
+		case "File":
+			return l.LoadFromFile(loc)
+		case "URI":
+			return l.LoadFromURI(&url.URL{Path: loc})
+		case "HTTP":
+			u, _ := url.Parse(loc)
+			return l.LoadFromURI(u)
+		}
 		panic("entry " + f.Entry)
 	}
+	rootBytes, _ := json.Marshal(f.Files[f.RootLoc])
+	switch history {
+	case 1:
+		preloading = true
+		brokenBytes, _ = json.Marshal(brokenRoot(f))
+		brokenLoc = f.RootLoc
+		if i := strings.LastIndex(brokenLoc, "/"); i >= 0 {
+			brokenLoc = brokenLoc[:i+1] + "broken-edition.json"
+		}
+		load(brokenBytes, brokenLoc)
+		preloading = false
+	case 2:
+		preloading = true
+		load(rootBytes, f.RootLoc)
+		preloading = false
+		res.Reads = nil
+	}
+	res.Doc, res.Err = load(rootBytes, f.RootLoc)
 	return res
 }
